@@ -102,7 +102,10 @@ Proof.
   - destruct a as [[] ?]; discriminate.
 Qed.
 
-Theorem vsubst_eval : forall t I s, wf_interp I -> range_ok boolish s ->
+(* a replacement is harmless under a rebuilt Not: it is not itself a negation, or it is a Boolean skeleton *)
+Definition nnb (r : term) : bool := negb (top_not r) || boolish r.
+
+Theorem vsubst_eval_gen : forall t I s, wf_interp I -> range_ok nnb s ->
   is_qf t = true -> normal t = true -> eval I (vsubst s t) = eval (ov I s) t.
 Proof.
   induction t as [o args IH] using term_ind'. intros I s HI Hr Hqf Hn.
@@ -134,6 +137,12 @@ Proof.
   - assert (Ho : o <> ONot) by (intros ->; cbn in Hnot; discriminate).
     rewrite (rebuild_same_len o args) by (auto; apply map_length).
     apply eval_congr_ov; auto.
+Qed.
+
+Theorem vsubst_eval : forall t I s, wf_interp I -> range_ok boolish s ->
+  is_qf t = true -> normal t = true -> eval I (vsubst s t) = eval (ov I s) t.
+Proof.
+  intros t I s HI Hr. apply vsubst_eval_gen; auto. intros v r E. unfold nnb. rewrite (Hr v r E). apply orb_true_r.
 Qed.
 
 Corollary vsubst_tv t I s : wf_interp I -> range_ok boolish s -> is_qf t = true -> normal t = true ->
